@@ -393,7 +393,7 @@ def _sim_strategy():
     from hypothesis import strategies as st
     base = lifecycle_cases(
         requests=('incr', 'decr', 'set', 'restart', 'reload', 'stop',
-                  'start'), kill_cmd=True, hooks=True, max_ops=16)
+                  'start'), kill_cmd=True, hooks=True, max_ops=16, set_other=True)
     trig = st.sampled_from(['quit', 'TERM', 'INT', 'QUIT'])
 
     @st.composite
